@@ -167,6 +167,10 @@ func NewControl(
 	if poolCount > int(serverCfg.Transport.MaxPoolCount) {
 		poolCount = int(serverCfg.Transport.MaxPoolCount)
 	}
+	if poolCount < 0 {
+		// the value comes from the peer's login message
+		poolCount = 0
+	}
 	ctl := &Control{
 		rc:            rc,
 		pxyManager:    pxyManager,
